@@ -60,6 +60,9 @@ pub fn decode_digital_radar_data<R: Read + Seek>(reader: &mut R) -> Result<Messa
         })
         .collect::<Result<Vec<_>>>()?;
 
+    // Blocks may be referenced in any order, so the message ends after the furthest block
+    let mut message_end = reader.stream_position()?;
+
     for pointer in pointers {
         reader.seek(SeekFrom::Start(start_position + pointer as u64))?;
 
@@ -108,7 +111,11 @@ pub fn decode_digital_radar_data<R: Read + Seek>(reader: &mut R) -> Result<Messa
                 }
             }
         }
+
+        message_end = message_end.max(reader.stream_position()?);
     }
+
+    reader.seek(SeekFrom::Start(message_end))?;
 
     Ok(message)
 }
